@@ -53,6 +53,7 @@ structure Rd where
 
 inductive Err
   | eof | tag | tooLong | decode | version | alg | gate | bitString | negative | stalled | range
+  | lenForm | algMismatch | outerLen
   deriving Repr, DecidableEq
 
 inductive Res (α : Type)
@@ -136,10 +137,16 @@ def peekU8 (off : Nat) : RdM UInt8 := do
   | b :: _ => pure b
   | [] => fail .eof
 
+/-- `expectSupportedLengthForm`: with the strict form, a long-form first byte with one of the bits `0x70` set (more than
+15 length bytes — previously aliased to `0x80..0x8f`) or with count 0 (the indefinite form — previously length 0) is rejected. -/
+def lenFormOk (b : UInt8) : Bool :=
+  !lengthFormStrict || (b &&& 0x70 == 0 && b &&& lengthCountMask != 0)
+
 /-- `ReadLength`: short form when bit 8 is clear, else `b & lengthMask` length bytes, big endian. -/
 def readLen : RdM (Nat × Nat) := do
   let b ← readU8
   if b &&& 0x80 = 0 then pure (b.toNat, 1)
+  else if !lenFormOk b then fail .lenForm
   else
     let k := (b &&& lengthCountMask).toNat
     let bs ← readN k
@@ -148,6 +155,7 @@ def readLen : RdM (Nat × Nat) := do
 def peekLen (off : Nat) : RdM (Nat × Nat) := do
   let b ← peekU8 off
   if b &&& 0x80 = 0 then pure (b.toNat, 1)
+  else if !lenFormOk b then fail .lenForm
   else
     let k := (b &&& lengthCountMask).toNat
     let bs ← peekN k (off + 1)
@@ -300,8 +308,9 @@ def onBytes (bs : Bytes) (m : RdM α) : RdM α := fun r =>
   | .err e r' => .err e { r with allocs := r.allocs ++ r'.allocs }
   | .panic r' => .panic { r with allocs := r.allocs ++ r'.allocs }
 
-/-- `findAlgorithmIdentifierInCRL`: first pass over the file. -/
-def prescan (O : Oracle) : RdM (List Nat) := do
+/-- `findAlgorithmIdentifierInCRL`: first pass over the file. Returns the OID the leaf decoder found in the outer
+signatureAlgorithm and the frame (complete TLV) it was decoded from. -/
+def prescan (O : Oracle) : RdM (List Nat × Bytes) := do
   let outer ← readTL
   expectTag 0x30 outer.tag
   let tbs ← peekTL 0
@@ -309,8 +318,25 @@ def prescan (O : Oracle) : RdM (List Nat) := do
   let f ← readStructFrame
   logQuery .alg f.length
   match O.algOid f with
-  | some oid => pure oid
+  | some oid => pure (oid, f)
   | none => fail .decode
+
+/-- The `signature` field at the start of tbsCertList. Old code: `_, _ = readAlgorithmIdentifier(&reader)` (result and
+error ignored). With the comparison: decoded (an error is returned) and required to equal the outer signatureAlgorithm
+(`isSameAlgorithmIdentifier`: same OID and same parameter bytes — for the strict DER decoder that is frame equality). -/
+def readInnerAlg (O : Oracle) (outerFrame : Bytes) : RdM Unit :=
+  if algIdsCompared then do
+    let f ← readStruct .alg (fun b => (O.algOid b).isSome)
+    if f = outerFrame then pure () else fail .algMismatch
+  else ignoreErr readStructFrame
+
+/-- After the signature: no unused bits (when checked), and the list ends where the outer length said (when checked). -/
+def checkEnvelope (sig : BitStr) (outerEnd : Nat) : RdM Unit := do
+  if sigUnusedBitsRejected && sig.bitLen % 8 != 0 then fail .bitString
+  if outerLengthChecked then do
+    let p ← getPos
+    if p = outerEnd then pure () else fail .outerLen
+  else pure ()
 
 def setHashing (b : Bool) : RdM Unit := fun r =>
   .ok () { r with hashing := b, hashed := if b then [] else r.hashed, hashFrom := if b then r.pos else r.hashFrom }
@@ -385,9 +411,10 @@ def checkGate : Option (List Ext) → RdM Unit
   | none => pure ()
 
 /-- Second pass: `ReadCRL` after the pre-scan. -/
-def readBody (O : Oracle) (oid : List Nat) : RdM ReadResult := do
+def readBody (O : Oracle) (oid : List Nat) (outerFrame : Bytes) : RdM ReadResult := do
   let outer ← readTL
   expectTag 0x30 outer.tag
+  let outerEnd ← if outerLengthChecked then endPosition outer.len else pure 0
   let hashAlg ← lookupHashM oid
   setHashing true
   let tbs ← readTL
@@ -395,7 +422,7 @@ def readBody (O : Oracle) (oid : List Nat) : RdM ReadResult := do
   let tbsEnd ← endPosition tbs.len
   let version ← readVersion
   if version > maxVersion then fail .version
-  ignoreErr readStructFrame                       -- skip inner AlgorithmIdentifier (result ignored)
+  readInnerAlg O outerFrame                       -- inner AlgorithmIdentifier (`signature` field)
   let issuer ← readStruct .rdn O.rdnOk
   let thisUpdate ← readUtcTime O
   let nextUpdate ← readNextUpdate O
@@ -409,6 +436,7 @@ def readBody (O : Oracle) (oid : List Nat) : RdM ReadResult := do
   setHashing false
   ignoreErr readStructFrame                       -- skip outer AlgorithmIdentifier
   let sig ← parseBitString
+  checkEnvelope sig outerEnd
   pure { algOid := oid, hashAlg := hashAlg, issuer := issuer, exts := exts, sig := sig, hashRegion := region, hashFrom := hashFrom }
 
 inductive Outcome
@@ -429,8 +457,8 @@ def readCRL (O : Oracle) (file : Bytes) : RunResult :=
   match prescan O { rest := file } with
   | .err e r => ⟨.err e, [], r.allocs, r.queries, r.pos⟩
   | .panic r => ⟨.panic, [], r.allocs, r.queries, r.pos⟩
-  | .ok oid r1 =>
-    match readBody O oid { rest := file } with
+  | .ok (oid, frame) r1 =>
+    match readBody O oid frame { rest := file } with
     | .ok res r2 => ⟨.ok res, r2.events, r1.allocs ++ r2.allocs, r1.queries ++ r2.queries, r2.pos⟩
     | .err e r2 => ⟨.err e, r2.events, r1.allocs ++ r2.allocs, r1.queries ++ r2.queries, r2.pos⟩
     | .panic r2 => ⟨.panic, r2.events, r1.allocs ++ r2.allocs, r1.queries ++ r2.queries, r2.pos⟩
